@@ -495,11 +495,140 @@ fn liveness(acc: &mut Acc) {
     }
 }
 
+// ---------------------------------------------------------------------------
+// Live service: hostile datagrams / upstream replies, then a valid query must be answered
+// ---------------------------------------------------------------------------
+
+use crate::enet::{BASE_YAML, Rig, RigSpec, UdpClient};
+use crate::netrun::{self, CaseResult};
+
+fn live_values(tier: &str) -> Vec<u8> {
+    if tier == "thorough" { (0..=255).collect() } else { vec![0, 1, 2, 7, 8, 0x0c, 0x29, 0x3f, 0x40, 0x7f, 0x80, 0xc0, 0xc1, 0xff] }
+}
+
+pub fn cases(tier: &str) -> Vec<Value> {
+    let mut out = vec![];
+    for (tname, seed) in seeds() {
+        if tname != "dns" {
+            continue;
+        }
+        let kind = if seed.name == "dns-query-cookie" { "client-hostile" } else { "upstream-hostile" };
+        // chunks of 8 offsets
+        let mut off = 0;
+        while off < seed.bytes.len() {
+            out.push(json!({"engine":"enet","check":"c05","kind":kind,"seed":seed.name,"from":off,"to":(off + 8).min(seed.bytes.len()),"tier":tier}));
+            off += 8;
+        }
+    }
+    out
+}
+
+pub fn run_case(case: &Value) -> CaseResult {
+    let spec = RigSpec { listeners: vec!["::1".into()], n_upstreams: 1, yaml: BASE_YAML.into() };
+    let mut rig = match Rig::start(&spec) {
+        Ok(r) => r,
+        Err(e) => return CaseResult::machinery(e),
+    };
+    let seed = seeds().into_iter().map(|x| x.1).find(|s| Some(s.name) == case["seed"].as_str()).expect("seed");
+    let vals = live_values(case["tier"].as_str().unwrap_or("quick"));
+    let (from, to) = (case["from"].as_u64().unwrap() as usize, case["to"].as_u64().unwrap() as usize);
+    let dst = rig.listen_addr(0);
+    let cip: std::net::IpAddr = "::1".parse().unwrap();
+    let mut res = CaseResult::ok(format!("live:{}", case["kind"].as_str().unwrap_or("")));
+    let mut n = 0u64;
+    let mut served_udp = 0usize;
+    let client_side = case["kind"].as_str() == Some("client-hostile");
+    for off in from..to {
+        for v in vals.iter().map(|v| Some(*v)).chain([None]) {
+            let mut b = seed.bytes.clone();
+            match v {
+                Some(v) => b[off] = v,
+                None => b.truncate(off),
+            }
+            n += 1;
+            if client_side {
+                // hostile datagram from a client
+                if let Ok(c) = UdpClient::new(cip) {
+                    let _ = c.send(dst, &b);
+                }
+                rig.pump(6);
+                rig.poll_upstreams();
+                // whatever was forwarded gets a valid answer so nothing lingers
+                while served_udp < rig.upstreams[0].udp_rx.len() {
+                    let (qb, src) = rig.upstreams[0].udp_rx[served_udp].clone();
+                    served_udp += 1;
+                    if let Ok((oq, _)) = rd::decode(&qb) {
+                        let rep = rd::Msg { id: oq.id, flags: 0x8180, question: oq.question.clone(), answer: vec![], authority: vec![], additional: vec![] };
+                        let _ = rig.upstreams[0].udp_reply(src, &rd::encode(&rep, true));
+                    }
+                }
+                rig.pump(4);
+            } else {
+                // a valid client query whose upstream reply is hostile
+                let q = rd::encode(&rd::query(n as u16, &rd::name(&format!("h{n}.example")), rd::T_A, 1, true, None), false);
+                let c = match UdpClient::new(cip) {
+                    Ok(c) => c,
+                    Err(e) => return CaseResult::machinery(e),
+                };
+                let _ = c.send(dst, &q);
+                let before = served_udp;
+                let _ = rig.wait_until(|r| r.upstreams[0].udp_rx.len() > before, "forwarded query");
+                while served_udp < rig.upstreams[0].udp_rx.len() {
+                    let (qb, src) = rig.upstreams[0].udp_rx[served_udp].clone();
+                    served_udp += 1;
+                    // patch the id so that the reply is accepted as belonging to the query
+                    let mut hb = b.clone();
+                    if hb.len() >= 2 && off >= 2 {
+                        hb[0] = qb[0];
+                        hb[1] = qb[1];
+                    }
+                    let _ = rig.upstreams[0].udp_reply(src, &hb);
+                }
+                rig.pump(8);
+                rig.poll_upstreams();
+                // a TC / foreign id reply makes the forwarder retry over TCP: answer that properly
+                for conn in rig.upstreams[0].conns.iter_mut() {
+                    while let Some(f) = conn.frames_in.pop() {
+                        if let Ok((oq, _)) = rd::decode(&f) {
+                            let rep = rd::Msg { id: oq.id, flags: 0x8180, question: oq.question.clone(), answer: vec![], authority: vec![], additional: vec![] };
+                            let _ = conn.send_frame(&rd::encode(&rep, true));
+                        }
+                    }
+                }
+                rig.pump(4);
+            }
+        }
+    }
+    // the service must still answer a well-formed query
+    let q = json!({"name":"alive.example","type":1,"class":1,"edns":"plain","flags":"rd","transport":"udp"});
+    let r = json!({"rcode":0,"an":[0],"ns":[],"ar":[],"compress":true,"opt":true});
+    // drain whatever is pending upstream so that exchange() sees only its own query
+    rig.poll_upstreams();
+    let ex = crate::checks::c03::exchange(&mut rig, &q, &r, 0x7e7e, cip, 0);
+    let ps = rig.stop();
+    let mk = |oracle: &str, what: String| Violation::new(oracle, what, case.clone()).sig("target", "dns-live");
+    if let Some(p) = ps.first() {
+        let loc = panics::short_loc(&p.loc);
+        res.violations.push(mk("panic", format!("a live DNS service task panicked on hostile {} input (seed {}, offsets {from}..{to}): {} at {loc}", if client_side { "client" } else { "upstream" }, seed.name, p.msg)).sig("loc", loc));
+    }
+    match ex {
+        Ok(e) if e.client_reply.is_some() => {}
+        Ok(_) => res.violations.push(mk("liveness", format!("after the hostile inputs (seed {}, offsets {from}..{to}) the service no longer answers a valid query", seed.name))),
+        Err(e) => res.violations.push(mk("liveness", format!("after the hostile inputs (seed {}, offsets {from}..{to}) the service no longer answers a valid query: {e}", seed.name))),
+    }
+    res.stats = json!({"live_inputs": n});
+    res
+}
+
 pub fn run(tier: &str, replay: Option<Value>) -> ! {
     let mut rep = Report::new("C05", if replay.is_some() { "quick" } else { tier }, "exploration");
     if let Some(case) = replay {
         rep.replay_mode = true;
         let case = if case.get("case").is_some() { case["case"].clone() } else { case };
+        if case["engine"].as_str() == Some("enet") {
+            netrun::replay_one(&mut rep, &case, run_case);
+            rep.finish();
+        }
         match (case["target"].as_str().and_then(target_by_name), case["bytes"].as_str()) {
             (Some(t), Some(h)) => {
                 panics::set_quiet(false);
@@ -522,9 +651,14 @@ pub fn run(tier: &str, replay: Option<Value>) -> ! {
     for v in acc.viols {
         rep.violation(v);
     }
+    let agg = netrun::run_sharded(&mut rep, "C05", tier, cases, 16);
+    let live = agg.stats_sum.get("live_inputs").copied().unwrap_or(0.0) as u64;
+    let e3 = e3 + live;
+    acc.classes.extend(agg.classes.keys().cloned());
+    rep.cov("live_service_inputs", live);
     rep.cov("evaluations", e3);
     rep.cov("distinct_nontrivial", acc.classes.iter().filter(|c| !c.contains(":reject")).count() as u64);
-    rep.cov("rule", "5 targets (dhcp receive path incl. handle_pkt/log_options/to_array/frame build; dns parser + every accessor the listener and upstream-reply paths call; icmp6 parse; lldp from_wire + TLV logging; pktparser readers) x {all byte strings of length <=2 (thorough <=3); valid seeds x every offset x all 256 values; seeds x every truncation; seeds x all pairs of marked length/count/pointer/type fields x boundary values}. distinct_nontrivial = distinct outcome classes that got past the decoder's rejection");
+    rep.cov("rule", "5 targets (dhcp receive path incl. handle_pkt/log_options/to_array/frame build; dns parser + every accessor the listener and upstream-reply paths call; icmp6 parse; lldp from_wire + TLV logging; pktparser readers) x {all byte strings of length <=2 (thorough <=3); valid seeds x every offset x all 256 values; seeds x every truncation; seeds x all pairs of marked length/count/pointer/type fields x boundary values}; live DNS service: every offset of the query seed (as a client datagram) and of the reply seed (as the upstream's reply to a valid query) x byte values (quick 14, thorough 256) + truncations, each chunk followed by a valid query that must be answered. distinct_nontrivial = distinct outcome classes that got past the decoder's rejection");
     rep.cov("exhaustive", true);
     rep.cov("parts", json!({"short_strings": e1, "seed_sweeps": e2 - e1, "liveness": e3 - e2}));
     rep.cov("outcome_classes", json!(acc.classes));
